@@ -145,7 +145,11 @@ impl Ty for I4H {
         v.header_len()
     }
     fn ser(v: &Self::V) -> Vec<(&'static str, Vec<u8>)> {
-        vec![("to_bytes", v.to_bytes().to_vec()), ("write", wr(|w| v.write(w).unwrap()))]
+        vec![("to_bytes", v.to_bytes().to_vec()), ("write", wr(|w| v.write(w).unwrap())), ("TransportHeader::Icmpv4.write", wr(|w| TransportHeader::Icmpv4(v.clone()).write(w).unwrap()))]
+    }
+    fn ser_special(v: &Self::V, r: &[u8]) -> Vec<(&'static str, Vec<u8>, Vec<u8>)> {
+        // the wrapper announces the same length as the header it wraps
+        vec![("TransportHeader::Icmpv4.header_len", (TransportHeader::Icmpv4(v.clone()).header_len() as u64).to_be_bytes().to_vec(), (r.len() as u64).to_be_bytes().to_vec())]
     }
     fn dec0(b: &[u8]) -> Dec<Self::V> {
         sl(b, Icmpv4Header::from_slice(b))
@@ -364,7 +368,10 @@ impl Ty for I6H {
         v.header_len()
     }
     fn ser(v: &Self::V) -> Vec<(&'static str, Vec<u8>)> {
-        vec![("to_bytes", v.to_bytes().to_vec()), ("write", wr(|w| v.write(w).unwrap()))]
+        vec![("to_bytes", v.to_bytes().to_vec()), ("write", wr(|w| v.write(w).unwrap())), ("TransportHeader::Icmpv6.write", wr(|w| TransportHeader::Icmpv6(v.clone()).write(w).unwrap()))]
+    }
+    fn ser_special(v: &Self::V, r: &[u8]) -> Vec<(&'static str, Vec<u8>, Vec<u8>)> {
+        vec![("TransportHeader::Icmpv6.header_len", (TransportHeader::Icmpv6(v.clone()).header_len() as u64).to_be_bytes().to_vec(), (r.len() as u64).to_be_bytes().to_vec())]
     }
     fn dec0(b: &[u8]) -> Dec<Self::V> {
         sl(b, Icmpv6Header::from_slice(b))
